@@ -868,6 +868,11 @@ def _map_index_to_line_and_column(text):
         line_numbers.append(current_line)
         column_numbers.append(current_column)
 
+    # Add an entry for the position at the end of the text. (An object that
+    # matches nothing may start there.)
+    line_numbers.append(current_line)
+    column_numbers.append(current_column + 1)
+
     return line_numbers, column_numbers
 '''
 
